@@ -363,6 +363,10 @@ let () =
         let fde = List.concat (List.init (rand_int r 10) (fun _ -> cfa_insn r be asz)) in
         let fde = if rand_int r 20 = 0 then (match List.rev fde with [] -> [] | _ :: t -> List.rev t) else fde in
         let fde = if rand_int r 30 = 0 then fde @ (0x01 :: fixed be asz (Z.of_int 0x2000)) else fde in
+        (* running code offsets around 2^32 *)
+        let fde = if rand_int r 15 = 0 then
+            (0x04 :: fixed be 4 (Z.of_string "4294967280")) @ [0x40 lor (pick r [| 15; 16; 63; 1 |]); 0x0e; 0x08] @ fde
+          else fde in
         let case = Printf.sprintf "c12.cficonv %d %d %d %s %s %s %s" (if be then 1 else 0) asz version caf daf (hex_of_ints cie) (hex_of_ints fde) in
         both emit case (fun dbg ->
           let d = { CfiRun.d_be = be; d_asize = n_of_int asz; d_aarch64 = false } in
